@@ -1,0 +1,14 @@
+//go:build verif
+
+package aquahash
+
+import (
+	"math/big"
+
+	"gitlab.com/aquachain/aquachain/core/types"
+)
+
+// VerifCalcDifficultyTestnet3 exposes the unexported (currently unreferenced) calcDifficultyTestnet3.
+func VerifCalcDifficultyTestnet3(time uint64, parent, grandparent *types.Header) *big.Int {
+	return calcDifficultyTestnet3(time, parent, grandparent)
+}
